@@ -195,9 +195,26 @@ def newer_worker(job):
             for nm, (x, y) in (("-newer", ("m", "m")), ("-anewer", ("a", "m")), ("-cnewer", ("c", "m"))):
                 tests.append([nm, rng.choice(["d/ref3", "d/ref3.lnk"])])
                 specs.append((x, y, "d/ref3", nm))
-            args = ["find", "d", "-mindepth", "1", "-sorted"] + lbl.label_args(tests)
+            # a reference that is a symbolic link with time stamps of its own: under -P "F's time stamp" is the link's, under -H/-L the
+            # target's - for -newer and for every -newerXY alike (they are the same test by definition)
+            lref = os.path.join(sb, "lref")
+            os.symlink("ref", lref)
+            la = rts["a"] + rng.choice([-7, 5]) * NS
+            lm = rts["m"] + rng.choice([-3, 11]) * NS
+            os.utime(lref, ns=(la, lm), follow_symlinks=False)
+            lr = os.lstat(lref)
+            follow = rng.choice([None, None, "-L", "-H"])
+            lkey = "lref(link itself)" if follow is None else "lref(followed)"
+            for nm, (x, y) in (("-newer", ("m", "m")), ("-newermm", ("m", "m")), ("-neweram", ("a", "m")), ("-anewer", ("a", "m")), ("-newerma", ("m", "a")),
+                               ("-cnewer", ("c", "m"))):
+                tests.append([nm, "lref"])
+                specs.append((x, y, lkey, nm))
+            args = ["find"] + ([follow] if follow else []) + ["d", "-mindepth", "1", "-sorted"] + lbl.label_args(tests)
             res = common.run_find_inproc([("c", args, 0)], sb, sb)["c"]
-            refs = {"ref": {"a": rst.st_atime_ns, "m": rst.st_mtime_ns, "c": rst.st_ctime_ns},
+            st.inc("runs_with_link_reference:" + (follow or "-P"))
+            refs = {"lref(link itself)": {"a": lr.st_atime_ns, "m": lr.st_mtime_ns, "c": lr.st_ctime_ns},
+                    "lref(followed)": {"a": rst.st_atime_ns, "m": rst.st_mtime_ns, "c": rst.st_ctime_ns},
+                    "ref": {"a": rst.st_atime_ns, "m": rst.st_mtime_ns, "c": rst.st_ctime_ns},
                     "ref2": {"a": r2.st_atime_ns, "m": r2.st_mtime_ns, "c": r2.st_ctime_ns},
                     "d/ref3": {"a": r3.st_atime_ns, "m": r3.st_mtime_ns, "c": r3.st_ctime_ns}}
             rp = {"args": args, "refs": refs, "files": {f: {"a": lst[f].st_atime_ns, "m": lst[f].st_mtime_ns, "c": lst[f].st_ctime_ns} for f in files}}
